@@ -96,10 +96,16 @@ inline bool bigNumbers(const std::string& s)
     if (c >= '0' && c <= '9')
     {
       if (++run > 3) return true;
-      if (i + 1 < s.size() && (s[i + 1] == 'e' || s[i + 1] == 'E')) return true;
     }
     else if (c == '.' ) { /* keeps the run */ }
-    else run = 0;
+    else
+    {
+      // an exponent mark directly after a digit or a decimal point ("1e9", "6.e8", ".5E3")
+      if ((c == 'e' || c == 'E') && i > 0 && ((s[i - 1] >= '0' && s[i - 1] <= '9') || s[i - 1] == '.')
+          && i + 1 < s.size() && ((s[i + 1] >= '0' && s[i + 1] <= '9') || s[i + 1] == '-' || s[i + 1] == '+'))
+        return true;
+      run = 0;
+    }
   }
   return false;
 }
